@@ -344,7 +344,7 @@ func runC08(s *kernel.Sim, enumerate bool) {
 	} else {
 		endpoint = endpoints[tp.Choose(2)]
 		class = c08Classes[tp.Choose(len(c08Classes))]
-		nf := tp.Weighted([]int{1, 2, 3, 2})
+		nf := tp.Weighted([]int{3, 2, 2, 1}) // single faults are enumerated by C08E; here the overlap with transactions matters more
 		for i := 0; i < nf; i++ {
 			faultIdx = append(faultIdx, tp.Choose(60))
 		}
@@ -526,7 +526,7 @@ func runC08(s *kernel.Sim, enumerate bool) {
 		if isLockPoint(point) {
 			return siteOn(a[0])
 		}
-		return point == "reload.published_not_initialised" || strings.HasPrefix(point, "fault.")
+		return point == "reload.published_not_initialised" || point == "reload.published" || strings.HasPrefix(point, "fault.")
 	}
 	active = true
 	upd := s.Spawn("update", func() {
@@ -549,17 +549,34 @@ func runC08(s *kernel.Sim, enumerate bool) {
 			s.Sleep(250 * time.Millisecond) // the update waits on fake time (health-check retries)
 			continue
 		}
-		if concurrent && nProbe < 6 && !upd.Done() && upd.Point != "task.start" && tp.Chance(1, 4) {
+		// right after the new engine is published is where a transaction can meet a
+		// configuration that is rejected a moment later: probe there more often
+		justPublished := upd.Parked() && upd.Point == "reload.published"
+		if justPublished {
+			s.Probe("update_parked_right_after_publish")
+		}
+		if concurrent && !upd.Done() && upd.Point != "task.start" && ((nProbe < 6 && tp.Chance(1, 4)) || (justPublished && nProbe < 9 && tp.Chance(1, 2))) {
 			nProbe++
 			i := tp.Choose(len(c08Probes))
 			d := &during{i: i}
 			id := fmt.Sprintf("during-%d", nProbe)
-			s.Spawn(id, func() {
+			pt := s.Spawn(id, func() {
 				d.v = env.probe(i, id)
 				d.multi = len(fired) > 1 || faultInRecovery
 				seen = append(seen, *d)
 			})
 			s.FaultFired("probe_during_update")
+			if justPublished && tp.Chance(1, 2) {
+				// let this transaction finish while the update still stands right behind
+				// the publication of the new engine
+				for k := 0; k < 200 && !pt.Done(); k++ {
+					if !pt.Parked() {
+						break
+					}
+					s.Resume(pt)
+				}
+				s.FaultFired("transaction_completed_right_after_publish")
+			}
 			continue
 		}
 		s.Resume(p[tp.Choose(len(p))])
